@@ -43,7 +43,15 @@ type chaos struct {
 	userDec  []string
 	viol     []string
 	known    []string
-	hostile  bool // invalid property values, raw decorations, double attach: no output oracle afterwards
+	hostile  bool // an alignment value that is no Alignment, a hand-assembled decoration: outside every property's domain
+}
+
+// leave: the case sets an input no property speaks about; say so once, in both streams
+func (s *chaos) leave() {
+	if !s.hostile {
+		s.hostile = true
+		s.g.do("leftdomain")
+	}
 }
 
 func (s *chaos) newItem() string {
@@ -201,9 +209,17 @@ func (s *chaos) build() {
 				isLoose = isLoose || l == row
 			}
 			if !isLoose {
+				inT := false
+				for _, x := range s.rows[t] {
+					inT = inT || x == row
+				}
+				if !inT {
+					// one *Row in two tables: it knows only the table it joined last, so the other one no
+					// longer hears of cells added to it — outside what the properties describe
+					s.leave()
+				}
 				g.do("addrow " + t + " " + row)
 				s.rows[t] = append(s.rows[t], row)
-				s.hostile = true
 			}
 		}
 	case q < 19:
@@ -245,13 +261,12 @@ func (s *chaos) props() {
 			val = r.pick([]string{"a1", "a2", "a3", "nil"})
 			if r.chance(1, 12) {
 				val = r.pick([]string{"a99999", "u5", "b1"})
-				s.hostile = true
+				s.leave()
 			}
 		case "skip":
 			val = r.pick([]string{"b0", "b1", "nil"})
 			if r.chance(1, 12) {
-				val = r.pick([]string{"u5", "a1"})
-				s.hostile = true
+				val = r.pick([]string{"u5", "a1"}) // refused by the JSON renderer, ignored by the others
 			}
 		default:
 			val = fmt.Sprintf("u%d", r.n(30))
@@ -401,7 +416,7 @@ func (s *chaos) settings() {
 				}
 			}
 			g.do("setdecor " + w.tok + " " + showDecor(d))
-			s.hostile = true
+			s.leave()
 		}
 	case q < 4:
 		w := s.wrapper("html")
